@@ -1150,6 +1150,23 @@ func (e *Entry) Augment(addErrors bool) (processed, skipped int) {
 	return processed, skipped
 }
 
+// writtenBefore reports whether the statement of node a stands before that of
+// node b in the source text. Without source positions (entries made by hand)
+// the answer is byDefault.
+func writtenBefore(a, b Node, byDefault bool) bool {
+	if a == nil || b == nil || a.Statement() == nil || b.Statement() == nil {
+		return byDefault
+	}
+	sa, sb := a.Statement(), b.Statement()
+	if sa.line == 0 || sb.line == 0 || (sa.line == sb.line && sa.col == sb.col) {
+		return byDefault
+	}
+	if sa.line != sb.line {
+		return sa.line < sb.line
+	}
+	return sa.col < sb.col
+}
+
 // ApplyDeviate walks the deviations within the supplied entry, and applies them to the
 // schema.
 func (e *Entry) ApplyDeviate(deviateOpts ...DeviateOpt) []error {
@@ -1162,121 +1179,136 @@ func (e *Entry) ApplyDeviate(deviateOpts ...DeviateOpt) []error {
 			continue
 		}
 
+		// The deviate statements of a deviation take effect in the order
+		// in which they are written. They are kept by kind in a map, so
+		// that order is restored from their source positions.
+		type deviateStep struct {
+			dt   deviationType
+			spec *Entry
+		}
+		var steps []deviateStep
 		for dt, dv := range d.Deviate {
 			for _, devSpec := range dv {
-				switch dt {
-				case DeviationAdd, DeviationReplace:
-					if devSpec.Config != TSUnset {
-						deviatedNode.Config = devSpec.Config
-					}
+				steps = append(steps, deviateStep{dt, devSpec})
+			}
+		}
+		sort.SliceStable(steps, func(i, j int) bool {
+			return writtenBefore(steps[i].spec.Node, steps[j].spec.Node, steps[i].dt < steps[j].dt)
+		})
+		for _, step := range steps {
+			dt, devSpec := step.dt, step.spec
+			switch dt {
+			case DeviationAdd, DeviationReplace:
+				if devSpec.Config != TSUnset {
+					deviatedNode.Config = devSpec.Config
+				}
 
-					if len(devSpec.Default) > 0 {
-						switch dt {
-						case DeviationAdd:
-							switch {
-							case deviatedNode.IsLeafList():
-								deviatedNode.Default = append(deviatedNode.Default, devSpec.Default...)
-							case len(devSpec.Default) > 1:
-								appendErr(fmt.Errorf("%s: tried to add more than one default to a non-leaflist entry at deviation", Source(e.Node)))
-							case len(deviatedNode.Default) != 0:
-								appendErr(fmt.Errorf("%s: tried to add a default value to an entry that already has a default value", Source(e.Node)))
-							case len(devSpec.Default) == 1 && len(deviatedNode.Default) == 0:
-								deviatedNode.Default = append([]string{}, devSpec.Default[0])
-							}
-						case DeviationReplace:
-							deviatedNode.Default = append([]string{}, devSpec.Default...)
-						}
-					}
-
-					if devSpec.Mandatory != TSUnset {
-						deviatedNode.Mandatory = devSpec.Mandatory
-					}
-
-					if devSpec.deviatePresence.hasMinElements {
-						if !deviatedNode.IsList() && !deviatedNode.IsLeafList() {
-							appendErr(fmt.Errorf("tried to deviate min-elements on a non-list type %s", deviatedNode.Kind))
-							continue
-						}
-						deviatedNode.ListAttr.MinElements = devSpec.ListAttr.MinElements
-					}
-
-					if devSpec.deviatePresence.hasMaxElements {
-						if !deviatedNode.IsList() && !deviatedNode.IsLeafList() {
-							appendErr(fmt.Errorf("tried to deviate max-elements on a non-list type %s", deviatedNode.Kind))
-							continue
-						}
-						deviatedNode.ListAttr.MaxElements = devSpec.ListAttr.MaxElements
-					}
-
-					if devSpec.Units != "" {
-						deviatedNode.Units = devSpec.Units
-					}
-
-					if devSpec.Type != nil {
-						deviatedNode.Type = devSpec.Type
-					}
-
-				case DeviationNotSupported:
-					dp := deviatedNode.Parent
-					if dp == nil {
-						appendErr(fmt.Errorf("%s: node %s does not have a valid parent, but deviate not-supported references one", Source(e.Node), e.Name))
-						continue
-					}
-					if !hasIgnoreDeviateNotSupported(deviateOpts) {
-						dp.delete(deviatedNode.Name)
-					}
-				case DeviationDelete:
-					if devSpec.Config != TSUnset {
-						deviatedNode.Config = TSUnset
-					}
-
-					if len(devSpec.Default) > 0 {
+				if len(devSpec.Default) > 0 {
+					switch dt {
+					case DeviationAdd:
 						switch {
 						case deviatedNode.IsLeafList():
-							// It is unclear from RFC7950 on how deviate delete works
-							// when there are duplicate leaf-list values in config-false leafs.
-							// TODO(wenbli): Add support for deleting default values when the leaf-list is a config leaf (duplicates are not allowed).
-							appendErr(fmt.Errorf("%s: deviate delete on default statements unsupported for leaf-lists, please use replace instead", Source(e.Node)))
-						case len(deviatedNode.Default) == 0:
-							appendErr(fmt.Errorf("%s: tried to deviate delete a default statement that doesn't exist", Source(e.Node)))
-						case devSpec.Default[0] != deviatedNode.Default[0]:
-							appendErr(fmt.Errorf("%s: tried to deviate delete a default statement with a non-matching keyword", Source(e.Node)))
-						default:
-							deviatedNode.Default = nil
+							deviatedNode.Default = append(deviatedNode.Default, devSpec.Default...)
+						case len(devSpec.Default) > 1:
+							appendErr(fmt.Errorf("%s: tried to add more than one default to a non-leaflist entry at deviation", Source(e.Node)))
+						case len(deviatedNode.Default) != 0:
+							appendErr(fmt.Errorf("%s: tried to add a default value to an entry that already has a default value", Source(e.Node)))
+						case len(devSpec.Default) == 1 && len(deviatedNode.Default) == 0:
+							deviatedNode.Default = append([]string{}, devSpec.Default[0])
 						}
+					case DeviationReplace:
+						deviatedNode.Default = append([]string{}, devSpec.Default...)
 					}
-
-					if devSpec.Mandatory != TSUnset {
-						deviatedNode.Mandatory = TSUnset
-					}
-
-					if devSpec.deviatePresence.hasMinElements {
-						if !deviatedNode.IsList() && !deviatedNode.IsLeafList() {
-							appendErr(fmt.Errorf("tried to deviate min-elements on a non-list type %s", deviatedNode.Kind))
-							continue
-						}
-						if deviatedNode.ListAttr.MinElements != devSpec.ListAttr.MinElements {
-							// Argument value must match:
-							// https://tools.ietf.org/html/rfc7950#section-7.20.3.2
-							appendErr(fmt.Errorf("min-element value %d differs from deviation's min-element value %d for entry %v", devSpec.ListAttr.MinElements, deviatedNode.ListAttr.MinElements, d.DeviatedPath))
-						}
-						deviatedNode.ListAttr.MinElements = 0
-					}
-
-					if devSpec.deviatePresence.hasMaxElements {
-						if !deviatedNode.IsList() && !deviatedNode.IsLeafList() {
-							appendErr(fmt.Errorf("tried to deviate max-elements on a non-list type %s", deviatedNode.Kind))
-							continue
-						}
-						if deviatedNode.ListAttr.MaxElements != devSpec.ListAttr.MaxElements {
-							appendErr(fmt.Errorf("max-element value %d differs from deviation's max-element value %d for entry %v", devSpec.ListAttr.MaxElements, deviatedNode.ListAttr.MaxElements, d.DeviatedPath))
-						}
-						deviatedNode.ListAttr.MaxElements = math.MaxUint64
-					}
-
-				default:
-					appendErr(fmt.Errorf("invalid deviation type %s", dt))
 				}
+
+				if devSpec.Mandatory != TSUnset {
+					deviatedNode.Mandatory = devSpec.Mandatory
+				}
+
+				if devSpec.deviatePresence.hasMinElements {
+					if !deviatedNode.IsList() && !deviatedNode.IsLeafList() {
+						appendErr(fmt.Errorf("tried to deviate min-elements on a non-list type %s", deviatedNode.Kind))
+						continue
+					}
+					deviatedNode.ListAttr.MinElements = devSpec.ListAttr.MinElements
+				}
+
+				if devSpec.deviatePresence.hasMaxElements {
+					if !deviatedNode.IsList() && !deviatedNode.IsLeafList() {
+						appendErr(fmt.Errorf("tried to deviate max-elements on a non-list type %s", deviatedNode.Kind))
+						continue
+					}
+					deviatedNode.ListAttr.MaxElements = devSpec.ListAttr.MaxElements
+				}
+
+				if devSpec.Units != "" {
+					deviatedNode.Units = devSpec.Units
+				}
+
+				if devSpec.Type != nil {
+					deviatedNode.Type = devSpec.Type
+				}
+
+			case DeviationNotSupported:
+				dp := deviatedNode.Parent
+				if dp == nil {
+					appendErr(fmt.Errorf("%s: node %s does not have a valid parent, but deviate not-supported references one", Source(e.Node), e.Name))
+					continue
+				}
+				if !hasIgnoreDeviateNotSupported(deviateOpts) {
+					dp.delete(deviatedNode.Name)
+				}
+			case DeviationDelete:
+				if devSpec.Config != TSUnset {
+					deviatedNode.Config = TSUnset
+				}
+
+				if len(devSpec.Default) > 0 {
+					switch {
+					case deviatedNode.IsLeafList():
+						// It is unclear from RFC7950 on how deviate delete works
+						// when there are duplicate leaf-list values in config-false leafs.
+						// TODO(wenbli): Add support for deleting default values when the leaf-list is a config leaf (duplicates are not allowed).
+						appendErr(fmt.Errorf("%s: deviate delete on default statements unsupported for leaf-lists, please use replace instead", Source(e.Node)))
+					case len(deviatedNode.Default) == 0:
+						appendErr(fmt.Errorf("%s: tried to deviate delete a default statement that doesn't exist", Source(e.Node)))
+					case devSpec.Default[0] != deviatedNode.Default[0]:
+						appendErr(fmt.Errorf("%s: tried to deviate delete a default statement with a non-matching keyword", Source(e.Node)))
+					default:
+						deviatedNode.Default = nil
+					}
+				}
+
+				if devSpec.Mandatory != TSUnset {
+					deviatedNode.Mandatory = TSUnset
+				}
+
+				if devSpec.deviatePresence.hasMinElements {
+					if !deviatedNode.IsList() && !deviatedNode.IsLeafList() {
+						appendErr(fmt.Errorf("tried to deviate min-elements on a non-list type %s", deviatedNode.Kind))
+						continue
+					}
+					if deviatedNode.ListAttr.MinElements != devSpec.ListAttr.MinElements {
+						// Argument value must match:
+						// https://tools.ietf.org/html/rfc7950#section-7.20.3.2
+						appendErr(fmt.Errorf("min-element value %d differs from deviation's min-element value %d for entry %v", devSpec.ListAttr.MinElements, deviatedNode.ListAttr.MinElements, d.DeviatedPath))
+					}
+					deviatedNode.ListAttr.MinElements = 0
+				}
+
+				if devSpec.deviatePresence.hasMaxElements {
+					if !deviatedNode.IsList() && !deviatedNode.IsLeafList() {
+						appendErr(fmt.Errorf("tried to deviate max-elements on a non-list type %s", deviatedNode.Kind))
+						continue
+					}
+					if deviatedNode.ListAttr.MaxElements != devSpec.ListAttr.MaxElements {
+						appendErr(fmt.Errorf("max-element value %d differs from deviation's max-element value %d for entry %v", devSpec.ListAttr.MaxElements, deviatedNode.ListAttr.MaxElements, d.DeviatedPath))
+					}
+					deviatedNode.ListAttr.MaxElements = math.MaxUint64
+				}
+
+			default:
+				appendErr(fmt.Errorf("invalid deviation type %s", dt))
 			}
 		}
 	}
